@@ -36,6 +36,7 @@ type PropCfg struct {
 	Exempt     map[string]string `json:"exempt"`  // handler (short name) -> reason why it carries no obligation of this property
 	Functions  []string     `json:"functions"`  // additional functions that must be under contract and verified
 	Bounded    []string     `json:"bounded"`    // names of bounded stand-ins (thorough tier)
+	DeleteOnly []string     `json:"delete_only"` // tables in which step functions may delete rows (static obligation over the SSA call graph)
 	Lemmas     []string     `json:"lemmas"`     // SMT-LIB lemma files (spec/lemmas): every check-sat must be unsat
 	Explain    string       `json:"explanation"`
 	Assumes    []string     `json:"assumptions"`
@@ -187,6 +188,41 @@ func writeSet(p *Program, sp *Spec, fn *ssa.Function, seen map[*ssa.Function]boo
 			if callee := cc.StaticCallee(); callee != nil {
 				if callee.Pkg != nil && strings.Contains(callee.Pkg.Pkg.Path(), "regen-network/regen-ledger") || callee.Parent() != nil || callee.Synthetic != "" {
 					writeSet(p, sp, callee, seen, out)
+				}
+			}
+		}
+	}
+}
+
+// deleteSet: tables in which a function may delete rows, transitively.
+func deleteSet(p *Program, sp *Spec, fn *ssa.Function, seen map[*ssa.Function]bool, out map[string]bool) {
+	if fn == nil || seen[fn] || len(fn.Blocks) == 0 {
+		return
+	}
+	seen[fn] = true
+	for _, b := range fn.Blocks {
+		for _, ins := range b.Instrs {
+			if mc, ok := ins.(*ssa.MakeClosure); ok {
+				deleteSet(p, sp, mc.Fn.(*ssa.Function), seen, out)
+				continue
+			}
+			ci, ok := ins.(ssa.CallInstruction)
+			if !ok {
+				continue
+			}
+			cc := ci.Common()
+			if cc.IsInvoke() {
+				if t := sp.TableByIf[ifaceName(cc.Value.Type())]; t != nil {
+					switch cc.Method.Name() {
+					case "Delete", "DeleteBy", "DeleteRange":
+						out[t.Name] = true
+					}
+				}
+				continue
+			}
+			if callee := cc.StaticCallee(); callee != nil {
+				if callee.Pkg != nil && strings.Contains(callee.Pkg.Pkg.Path(), "regen-network/regen-ledger") || callee.Parent() != nil || callee.Synthetic != "" {
+					deleteSet(p, sp, callee, seen, out)
 				}
 			}
 		}
@@ -373,6 +409,30 @@ func cmdCheck(args []string) {
 			stepNames = append(stepNames, n)
 		}
 		sort.Strings(stepNames)
+		if len(cfg.DeleteOnly) > 0 {
+			allowed := map[string]bool{}
+			for _, t := range cfg.DeleteOnly {
+				allowed[t] = true
+			}
+			for _, n := range stepNames {
+				ds := map[string]bool{}
+				deleteSet(p, sp, steps[n], map[*ssa.Function]bool{}, ds)
+				nObl++
+				bad := ""
+				for t := range ds {
+					if !allowed[t] {
+						bad += " " + t
+					}
+				}
+				if bad == "" {
+					nDis++
+					obls = append(obls, oblReport{Name: "static.deletes", Func: shortName(n), Result: "unsat", Solver: "static"})
+				} else {
+					obls = append(obls, oblReport{Name: "static.deletes", Func: shortName(n), Result: "sat", Solver: "static"})
+					problem("refuted", n, "static.deletes", "step function may delete rows of"+bad+" (referenced rows must never be deleted)", nil, nil)
+				}
+			}
+		}
 		for _, n := range stepNames {
 			fn := steps[n]
 			ws := map[string]bool{}
@@ -555,6 +615,22 @@ func cmdCheck(args []string) {
 		}
 		trusted["assumed facts A1.. stated at the top of spec/lemmas/"+lf] = true
 	}
+	// bounded stand-ins (never counted as discharged proof obligations)
+	var boundedRes []boundedResult
+	for _, bn := range cfg.Bounded {
+		br := runBounded(bn)
+		boundedRes = append(boundedRes, br)
+		if br.Status != "ok" {
+			os.MkdirAll(replayDir, 0o755)
+			rf := filepath.Join(replayDir, "bounded."+bn+".txt")
+			os.WriteFile(rf, []byte(fmt.Sprintf("property: %s\nbounded stand-in: %s\nbound: %s\ncases run: %d\nfailing inputs (run on the real functions):\n%s\n", cfg.ID, bn, br.Bound, br.Cases, strings.Join(br.Fails, "\n"))), 0o644)
+			suffix := ""
+			if br.Status == "error" {
+				suffix = " no-failing-input-found"
+			}
+			violations = append(violations, fmt.Sprintf("VIOLATION property=%s replay=%s obligation=bounded.%s (%s)%s", cfg.ID, rf, bn, br.Status, suffix))
+		}
+	}
 	// dedupe violations (same obligation on several paths)
 	violations = uniq(violations)
 	knownLines = uniq(knownLines)
@@ -604,7 +680,7 @@ func cmdCheck(args []string) {
 		"dropped_by_translation":   append([]string{"error message text", "events, gas, telemetry, logging", "termination", "integer overflow of machine arithmetic (integers are mathematical; narrowing conversions are exact)"}, cfg.Dropped...),
 		"explanation":              cfg.Explain,
 		"known_findings_reported":  knownLines,
-		"bounded_checks":           cfg.Bounded,
+		"bounded_checks":           boundedRes,
 	}
 	ev := map[string]interface{}{
 		"property_id": cfg.ID,
